@@ -1095,7 +1095,11 @@ def gen_floor_idle(rng, idx, big=False):
     ms = []
     for j in range(k):
         kind = rng.choice(['processor', 'processor', 'handler'])
-        ms.append(B.dev(kind, up=f'{a},{b}', cyc=rng.choice([1, 2, 4, 6, 8, 10, 14])))
+        feed = f'{a},{b}'
+        if rng.random() < 0.3:
+            # the branch starts with a pass-through device: its idle time is the machine's behind it
+            feed = str(B.dev('gate', up=feed, pred='always'))
+        ms.append(B.dev(kind, up=feed, cyc=rng.choice([1, 2, 4, 6, 8, 10, 14])))
     B.dev('sink', up=','.join(map(str, ms)), cyc=0, collect=rng.choice([0, 1]))
     L += B.L
     sched = []
